@@ -186,7 +186,22 @@ def cross_matrix(ctx, o_x, first_only=False):
                 # libpass context: hash with the first scheme, verify with any, update iff not the first scheme's format
                 others = [h for k, h in lp_all.items() if k != name]
                 c = LpContext([lp] + rng.sample(others, 2))
-                fresh = c.hash(secret.decode("latin-1").encode("utf-8").decode("utf-8")) if False else None
+                # ... on every call of a history, not only the first one (contexts are long-lived objects)
+                c2 = LpContext(rng.sample(others, 2) + [lp])
+                hist = []
+                for _k in range(rng.randrange(3, 8)):
+                    opk = rng.choice(["needs-own", "needs-foreign", "verify", "hash", "needs-own"])
+                    if opk == "needs-own":
+                        hist.append((opk, c.needs_update(hs), False))
+                    elif opk == "needs-foreign":
+                        hist.append((opk, c2.needs_update(hs), True))
+                    elif opk == "verify":
+                        hist.append((opk, (c.verify(secret, hs), c2.verify(secret, hs), c.verify(wrong, hs)), (True, True, False)))
+                    else:
+                        fh = c.hash(secret)
+                        hist.append((opk, (lp.identify(fh), c.needs_update(fh), c.verify(secret, fh)), (True, False, True)))
+                chk(name + ":context-history", all(g == w for _o, g, w in hist), dict(inp, history=[o for o, _g, _w in hist]), [(o, g) for o, g, w in hist if g != w][:2],
+                    "every call of the history answers like the first")
                 chk(name + ":context", c.verify(secret, hs) is True and c.needs_update(hs) is False and LpContext(rng.sample(others, 2) + [lp]).needs_update(hs) is True
                     and LpContext(rng.sample(others, 2) + [lp]).verify(secret, hs) is True, inp, hs, "context: verify with any scheme, update iff not the first scheme's format")
             except Exception as e:  # noqa: BLE001
